@@ -362,8 +362,6 @@ private def exP : Persp :=
   let p2 := ((p1.delete kA).delete kAp |>.addCommand 2).1
   ((p2.insert kB [9]).addCommand 3).1
 
-instance (p : Persp) : Decidable p.Inv := by unfold Persp.Inv; infer_instance
-
 example : exP.Inv ∧ exP.current = [] ∧ exP.commands.length = 3 := by decide
 example : (match exP.write 16 with
     | .ok seg => (match seg.factPerspective 0, seg.factPerspective 1 with
